@@ -53,6 +53,7 @@ def c08(tier):
     beh = export_server_behaviours(chk, "MCServerExport_c08.cfg", "c08", 20000 if thorough else 1500)
     run_family(chk, "server", "prod", ["--seed", s, "--n", 0, "--behaviours", beh], [ST], "tlc-behaviours")
     run_family(chk, "server", "prod", ["--seed", s, "--n", 8000 if thorough else 1200, "--mode", "healthy"], [ST], "healthy")
+    run_family(chk, "server", "prod", ["--seed", s + 3, "--n", 4000 if thorough else 600, "--mode", "wfault"], [ST], "wfault")
     run_family(chk, "server", "small", ["--seed", s + 1, "--n", 4000 if thorough else 600, "--mode", "healthy"], [ST],
                "healthy-small")
     chk.nontrivial = chk.traces_ok
